@@ -15,7 +15,7 @@ import numpy
 PROPERTY = "C13"
 LEVEL = "exploration"
 NEED_EXT = True
-REQUIRED = ["fct.roundtrip", "perm.roundtrip.labels", "perm.roundtrip.proba", "regressor.trained_on_g",
+REQUIRED = ["fct.roundtrip", "perm.roundtrip.labels", "perm.roundtrip.proba", "perm.roundtrip.of_the_inverse", "regressor.trained_on_g",
             "regressor.predict_inverse", "regressor.history", "classifier.labels", "classifier.proba", "classifier.classes_columns"]
 RULE = ("all predefined names x generated targets in their domain (NaN, 1-D/column) ; label sets (ints, negative "
         "ints, '<U' strings, object strings, 2-6 classes) x every random_state 0-23 (thorough 0-79) x three "
@@ -78,6 +78,14 @@ def run_fct(case, ctx):
         y = rng.uniform(0.5, 2.0, n) * 10.0 ** (-rng.randint(9, 21, n).astype(float))
         ctx.cls("tiny-targets")
     mag = float(numpy.min(numpy.abs(y))) if tiny else 1.0
+    if not tiny and case["sub"] % 3 == 1:
+        # the far end of the domain: exponents up to just below the float64 overflow (exp(709.78) = max double),
+        # arguments of the logarithms up to 1.7e308
+        if kind == "real":
+            y = rng.uniform(690.0, 709.7, n)
+        else:
+            y = 10.0 ** rng.uniform(300.0, 308.2, n)
+        ctx.cls("far-end-of-the-domain")
     if n > 2:
         y[rng.randint(n)] = numpy.nan
     shape = ["1d", "column"][case["sub"] % 2]
@@ -175,6 +183,22 @@ def run_perm(case, ctx):
                 same = len(y2) == len(y) and all(a == b for a, b in zip(y2.tolist(), y.tolist()))
             ctx.check(same, "C13/perm/label-roundtrip", "inverse permutation does not restore the labels",
                       cfg=cfg, y=y[:6], permuted=y1[:6], back=y2[:6])
+            # the inverse is a reciprocal transformer with a fitted permutation too: ITS reciprocal undoes it
+            # (codes -> labels -> codes)
+            try:
+                _, y3 = inv.get_fct_inv().transform(None, y2)
+                ctx.hit("perm.roundtrip.of_the_inverse")
+                if lname.endswith("-nan"):
+                    same3 = numpy.array_equal(numpy.asarray(y3, dtype=float), numpy.asarray(y1, dtype=float),
+                                              equal_nan=True)
+                else:
+                    same3 = len(y3) == len(y1) and all(a == b for a, b in zip(numpy.asarray(y3).tolist(),
+                                                                              numpy.asarray(y1).tolist()))
+                ctx.check(same3, "C13/perm/label-roundtrip/inverse-of-the-inverse", "the reciprocal of the reciprocal "
+                          "does not give back the codes", cfg=cfg, codes=numpy.asarray(y1)[:6], back=numpy.asarray(y3)[:6])
+            except Exception as e:
+                ctx.violation("C13/perm/raised/%s/inverse-of-the-inverse/%s" % (lname, type(e).__name__), str(e)[:150],
+                              cfg=cfg)
             # the permuted labels are a bijection onto 0..k-1
             vals = sorted(set(t.permutation_.values()))
             kk = len({v for v in y.tolist() if v == v})
